@@ -684,6 +684,13 @@ fn run(prop: &str, tier: Tier, cancel: bool) -> i32 {
         let st = explore(&name, h.config(), &h, &cfg);
         rep.add(st);
     }
+    // the transports zlink ships: a raw peer writes its frames over a real socket pair and leaves
+    // (shutdown / close / close with data of ours unread) before the zlink end reads anything
+    rep.require_goal("peer-leaves-with-data-of-ours-unread");
+    rep.rule.push_str("; plus (child process `sockets c01-child`) over real socket pairs with the zlink-tokio / zlink-smol transports: a raw peer writes 1..2 (thorough 3) frames of 9 B .. 6 KB and then shuts down its sending side / closes / closes with data of ours unread before the zlink end has read anything: every frame is still received, in order, then the end of the stream or the transport's error");
+    if let Err(code) = crate::common::child_phase_bin(&mut rep, "main", "sockets", "c01-child", tier, "real-sockets/peer-writes-then-leaves(child)") {
+        return code;
+    }
     if cancel {
         // the same guarantee over the transports zlink ships: real socket pairs, tokio and smol
         rep.require_goal("receive-abandoned-mid-traffic");
